@@ -212,6 +212,35 @@ def extend (s : List α) (streams : List (Option (List α))) : List α :=
 def clone (s : List α) : List α := s
 def reverse (s : List α) : List α := C05.reverse s
 
+/-- MapIndexed: `result[i] = fn(val, i)` -/
+def mapIdxFrom (f : α → Nat → α) : Nat → List α → List α
+  | _, [] => []
+  | i, x :: t => f x i :: mapIdxFrom f (i + 1) t
+def map (f : α → Nat → α) (s : List α) : List α := mapIdxFrom f 0 s
+
+/-- Filter: keep `input[i]` when `fn(input[i], i)` -/
+def filterIdxFrom (p : α → Nat → Bool) : Nat → List α → List α
+  | _, [] => []
+  | i, x :: t => if p x i then x :: filterIdxFrom p (i + 1) t else filterIdxFrom p (i + 1) t
+def filter (p : α → Nat → Bool) (s : List α) : List α := filterIdxFrom p 0 s
+/-- Reject = Filter with the negated predicate -/
+def reject (p : α → Nat → Bool) (s : List α) : List α := filter (fun x i => !p x i) s
+/-- FilterNotNil: `Maybe.Just(val).IsPresent()` — an int (boxed or not) is always present -/
+def filterNotNil (s : List α) : List α := filter (fun _ _ => true) s
+
+/-- Sort / SortByIndex: `sort.SliceStable` with "a goes before b" = `less a b`, on a clone -/
+def sort (less : α → α → Bool) (s : List α) : List α := s.mergeSort (fun a b => !less b a)
+
+/-- Get: `(*s)[i]` (index out of range panics) -/
+def get (s : List α) (i : Int) : Res α :=
+  if i < 0 then .panic else
+  match s[i.toNat]? with
+  | some x => .ok x
+  | none => .panic
+
+def len (s : List α) : Nat := s.length
+def toArray (s : List α) : List α := s
+
 end Stream
 
 namespace G
@@ -259,6 +288,25 @@ def add (zero : ν) (m : GoMap κ ν) (input : List κ) : GoMap κ ν :=
 
 def removeKeys (m : GoMap κ ν) (input : List κ) : GoMap κ ν :=
   if input.length > 0 then input.foldl mdel (clone m) else m
+
+def values (m : GoMap κ ν) : List ν := mvalues m
+/-- Get: a missing key gives the zero value -/
+def get (zero : ν) (m : GoMap κ ν) (k : κ) : ν := (mget m k).getD zero
+def containsValue [DecidableEq ν] (m : GoMap κ ν) (v : ν) : Bool := m.any (fun p => p.2 = v)
+/-- Set mutates the receiver (a nil map panics) -/
+def set (m : GoMap κ ν) (k : κ) (v : ν) : GoMap κ ν := mset m k v
+
+/-- RemoveValues: `valueMap := SliceToMap(0, input...)`; every key of the receiver whose value is in it is deleted from the clone -/
+def removeValues [DecidableEq ν] (m : GoMap κ ν) (input : List ν) : GoMap κ ν :=
+  if input.length > 0 then
+    let valueMap : GoMap ν Nat := sliceToMap 0 input
+    m.foldl (fun r p => if mhas valueMap p.2 then mdel r p.1 else r) (clone m)
+  else m
+
+/-- MapKey: `result[fn(k)] = v` (only injective `fn` gives an order-independent result) -/
+def mapKey (f : κ → κ) (m : GoMap κ ν) : GoMap κ ν := m.foldl (fun r p => mset r (f p.1) p.2) []
+/-- MapValue: `result[k] = fn(v)` -/
+def mapValue (f : ν → ν) (m : GoMap κ ν) : GoMap κ ν := m.foldl (fun r p => mset r p.1 (f p.2)) []
 
 def union (m : GoMap κ ν) : Option (GoMap κ ν) → GoMap κ ν
   | none => m
